@@ -11,8 +11,10 @@ import (
 
 var (
 	idPool   = []string{"", "a", "b", "c", "A", "B"}
-	maskPool = []string{"0", "a", "s", "c", "a,s", "a,c", "s,c", "a,s,c", "x", "a,x", "a,a", "s,a"}
-	wPool    = []string{"0", "a", "s", "c", "a,s", "a,c", "s,c", "a,s,c"}
+	maskPool = []string{"0", "a", "s", "c", "a,s", "a,c", "s,c", "a,s,c", "x", "a,x", "a,a", "s,a", "f", "r", "f,r", "a,r", "a,s,c,f,r", "r,r", "f,s"}
+	wPool    = []string{"0", "a", "s", "c", "a,s", "a,c", "s,c", "a,s,c", "f", "r", "f,r", "a,f,r", "a,s,c,f,r"}
+	fPool    = []string{"-", "0:0", "2:0", "0:3", "5:6"}
+	rPool    = []string{"-", "7", "8.9", "-"}
 	aPool    = []int{0, 1, 2, 3, 7}
 	sPool    = []string{"", "x", "yy", "Zed"}
 	cPool    = []string{"-", "-", "0", "4"}
@@ -20,14 +22,18 @@ var (
 	incPool  = []string{"aPos", "idLtB", "sEmpty"}
 	bfPool   = []string{"addA", "bumpA", "copyC"}
 	afPool   = []string{"stampC", "markS", "clearC"}
-	icptPool = []string{"", "", "", "lower", "lower", "dash", "first"}
+	icptPool = []string{"", "", "", "lower", "lower", "dash", "first", "dup"}
 	tickPool = []int{1, 1, 1, 0, 2}
 )
 
 func pick[X any](r *rand.Rand, xs []X) X { return xs[r.Intn(len(xs))] }
 
 func genMsg(r *rand.Rand) string {
-	return fmt.Sprintf("%d/%s/%s", pick(r, aPool), pick(r, sPool), pick(r, cPool))
+	base := fmt.Sprintf("%d/%s/%s", pick(r, aPool), pick(r, sPool), pick(r, cPool))
+	if r.Intn(3) > 0 {
+		return base
+	}
+	return rparse(base + "/" + pick(r, fPool) + "/" + pick(r, rPool)).String()
 }
 
 func genRng(r *rand.Rand) []int {
